@@ -618,6 +618,25 @@ func (i *interpreter) setMapOrder(spec string) {
 		return
 	}
 	var k, r int
+	if _, err := fmt.Sscanf(spec, "after-mark:%d", &r); err == nil {
+		// every range over a map executed after the harness called
+		// vfMapOrderMark() is rotated by r (r < 0: reversed)
+		i.mapOrder = func(ents []mapEntry) []mapEntry {
+			if !i.ps.mapMark || len(ents) < 2 {
+				return ents
+			}
+			out := append([]mapEntry{}, ents...)
+			if r < 0 {
+				for a, b := 0, len(out)-1; a < b; a, b = a+1, b-1 {
+					out[a], out[b] = out[b], out[a]
+				}
+				return out
+			}
+			rr := r % len(ents)
+			return append(out[rr:], out[:rr]...)
+		}
+		return
+	}
 	if _, err := fmt.Sscanf(spec, "rotate:%d:%d", &k, &r); err == nil {
 		i.mapOrder = func(ents []mapEntry) []mapEntry {
 			n := i.ps.rangeCount
